@@ -75,17 +75,18 @@ def _const_bv(c):
 
 class SymInt:
     """Python int, exact: signed bit-vector whose width grows so that no operation wraps."""
-    __slots__ = ("t", "w")
+    __slots__ = ("t", "w", "ub")
 
-    def __init__(self, t):
+    def __init__(self, t, ub=None):
         self.t = t
         self.w = t.size()
+        self.ub = ub        # when not None: the value is known (by construction) to lie in [0, 2^ub)
 
     # construction helpers
     @staticmethod
     def var(name, bits, signed=False):
         v = z3.BitVec(name, bits)
-        return SymInt(v) if signed else SymInt(z3.ZeroExt(1, v))
+        return SymInt(v) if signed else SymInt(z3.ZeroExt(1, v), bits)
 
     @staticmethod
     def lift(x):
@@ -94,7 +95,7 @@ class SymInt:
         if isinstance(x, bool):
             x = int(x)
         if isinstance(x, int):
-            return SymInt(_const_bv(x))
+            return SymInt(_const_bv(x), x.bit_length() if x >= 0 else None)
         if isinstance(x, SymBool):
             return SymInt(z3.If(x.t, z3.BitVecVal(1, 2), z3.BitVecVal(0, 2)))
         return None
@@ -198,12 +199,17 @@ class SymInt:
             w = o.bit_length() + 1
             if w < r.w:
                 r = SymInt(z3.Extract(w - 1, 0, r.t))
+            r.ub = o.bit_length() if self.ub is None else min(self.ub, o.bit_length())
         return r
 
     __rand__ = __and__
 
     def __or__(self, o):
-        return self._bin(o, lambda a, b: a | b, max)
+        r = self._bin(o, lambda a, b: a | b, max)
+        o2 = SymInt.lift(o)
+        if r is not NotImplemented and o2 is not None and self.ub is not None and o2.ub is not None:
+            r.ub = max(self.ub, o2.ub)
+        return r
 
     __ror__ = __or__
 
@@ -222,7 +228,7 @@ class SymInt:
             k = EX().concretize(k.t)
         if k < 0:
             raise ValueError("negative shift count")
-        return SymInt(z3.Concat(self.t, z3.BitVecVal(0, k))) if k else self
+        return SymInt(z3.Concat(self.t, z3.BitVecVal(0, k)), None if self.ub is None else self.ub + k) if k else self
 
     def __rlshift__(self, o):
         # const << symbolic : concretise the shift amount
@@ -328,13 +334,16 @@ class SymInt:
         if isinstance(length, SymInt):
             length = length.simp()
             if not isinstance(length, int):
+                if byteorder == "little" and not signed:
+                    return SymBytesVar(self, length)     # data-dependent length: keep the integer and the length term
                 length = EX().concretize(length.t)
         if signed:
             raise Unsupported("to_bytes signed")
-        if bool(self < 0):
-            raise OverflowError("can't convert negative int to unsigned")
-        if bool(self >= (1 << (8 * length))):
-            raise OverflowError("int too big to convert")
+        if self.ub is None or self.ub > 8 * length:
+            if bool(self < 0):
+                raise OverflowError("can't convert negative int to unsigned")
+            if bool(self >= (1 << (8 * length))):
+                raise OverflowError("int too big to convert")
         w = 8 * length
         t = self.ext(w + 1) if self.w <= w else z3.Extract(w, 0, self.t)
         items = [SymInt(z3.ZeroExt(1, z3.Extract(8 * i + 7, 8 * i, t))) for i in range(length)]  # little
@@ -829,6 +838,13 @@ class _BytesNS:
 sx_bytes = _BytesNS()
 
 
+class SymBytesVar:
+    """int.to_bytes(n, 'little') with a data-dependent length n: the integer and the length term"""
+
+    def __init__(self, value, length):
+        self.value, self.length = value, length
+
+
 def int_from_bytes(b, byteorder="big", *, signed=False):
     if not isinstance(b, SymBytes):
         return builtins.int.from_bytes(b, byteorder, signed=signed)
@@ -939,7 +955,7 @@ def sx_min(*a):
     return r.simp() if isinstance(r, SymInt) else r
 
 
-SYM_TYPES = (SymInt, SymFloat, SymOpt, SymBool, SymBytes)
+SYM_TYPES = (SymInt, SymFloat, SymOpt, SymBool, SymBytes, SymBytesVar)
 
 
 def register_symbolic(*cls):
